@@ -18,12 +18,22 @@ DECIDED = [
     "from the processing task whose end frees the slot; a synchronous actor runs in an executor that the asyncify wrapper creates and shuts down (waits for) around that one call",
     "R-C09-PAUSE (scan): the Redis fetch pages until a page is empty (no other bound on the paging loop); R-C09-OWN (topics): C11's registry rules reused - every registered topic is consumed",
     "R-C09-PAUSE (round 5): every guarded poll step of the Redis background consume task catches Exception (redis-py errors are not builtin ConnectionErrors): the task nobody awaits cannot die of one hiccup; R-C09-OWN: _forget_topic tests and deletes the set it discarded from",
+    "R-C09-PAIR / R-C09-PAUSE (round 6 + sweep): explicit `await consumer.consume()` loops are receive events for the slot pairing; RabbitMQ pause / unpause move the prefetch window, a paused consumer bounces, re-subscription after a server-side cancel",
+    "R-C09-AWAITED: in the files this property is anchored in, no bare statement calls a coroutine function (the operation would never run)",
 ]
 NOT_DECIDED = ["'makes progress / every job eventually executed' (liveness)", "lost wake-ups inside asyncio primitives"]
 ASSUMPTIONS = ["asyncio.Semaphore counts permits correctly; a done-callback runs exactly once when its task ends (normally, by exception or cancellation)"]
 
 
 def run(ctx: Ctx) -> None:
+    from .shared import every_operation_awaited
+
+    every_operation_awaited(ctx, "R-C09-AWAITED")  # in the files this property is anchored in, no asynchronous operation is created and dropped
+    from .brokers import rabbit_delivery_details, rabbit_delivery_table, rabbit_lifecycle
+
+    rabbit_lifecycle(ctx, "R-C09-PAUSE")  # RabbitMQ pause / unpause really move the prefetch window; a started consumer is marked consuming
+    rabbit_delivery_table(ctx, "R-C09-PAUSE")  # a paused consumer bounces deliveries, an unpaused consuming one accepts them
+    rabbit_delivery_details(ctx, "R-C09-PAUSE")  # no-stall: headers read when present, re-subscription after a server-side cancel, fast path only on a non-empty buffer
     pair_rule(ctx, "R-C09-PAIR")
     own_rule(ctx, "R-C09-OWN")
     pause_rule(ctx, "R-C09-PAUSE")
